@@ -476,7 +476,7 @@ func genRules(r *simkit.RNG, sc *Scenario, k *knobs) string {
 	// a directory rule naming a link to an out-of-tree directory, and a later rule re-including something below it
 	if k.outLinks && r.Chance(1, 3) {
 		for _, n := range sc.Tree {
-			if n.Root == "src" && n.Kind == "link" && strings.Contains(n.Target, "ext/dir") && !strings.Contains(n.Target, "dir/") {
+			if n.Root == "src" && n.Kind == "link" && strings.Contains(n.Target, "ext/dir") && !strings.Contains(n.Target, "dir/") && !strings.ContainsAny(n.Path, "\\@\t") {
 				lines = append(lines, n.Path+"/", "!"+n.Path+"/"+simkit.Pick(r, []string{"f", "secret", "sub/g"}))
 				break
 			}
